@@ -67,6 +67,17 @@ impl ScriptChoose {
     }
 }
 
+/// sub-states of the predicate-loop waits (`CvWaitUntil`, `NWaitUntil`)
+pub const WU_CHECK: u8 = 0;
+pub const WU_ENQ: u8 = 1;
+pub const WU_WAIT: u8 = 2;
+
+enum CvPhase {
+    NoOp,
+    Enqueued,
+    Woken,
+}
+
 #[derive(Clone, Debug, PartialEq, Eq, Hash)]
 pub enum Terminal {
     Done,
@@ -411,10 +422,28 @@ impl<'p> Machine<'p> {
                     woken && self.mutex[m as usize].owner.is_none()
                 }
             }
+            Op::CvWaitUntil { c, m, .. } => {
+                if self.th[t].sub == WU_WAIT {
+                    let woken = self.th[t].cv_notified.is_some()
+                        || self.th[t].cv_spurious_ok.is_some()
+                        || self.cv[c as usize].permits.iter().any(|(el, _)| el.contains(&tid));
+                    woken && self.mutex[m as usize].owner.is_none()
+                } else {
+                    true
+                }
+            }
             Op::NWait { n } => {
                 let st = &self.notify[n as usize];
                 // [envelope] MAY: one spurious return per Notify object
                 st.flag || (self.cfg.reading == Reading::May && !st.spurious_used)
+            }
+            Op::NWaitUntil { n, .. } => {
+                if self.th[t].sub == WU_WAIT {
+                    let st = &self.notify[n as usize];
+                    st.flag || (self.cfg.reading == Reading::May && !st.spurious_used)
+                } else {
+                    true
+                }
             }
             Op::Recv { c } => !self.chan[c as usize].queue.is_empty(),
             Op::BlockOn2 { .. } => match self.th[t].sub {
@@ -451,6 +480,12 @@ impl<'p> Machine<'p> {
         let tid = t as u8;
         match *op {
             Op::NWait { n } => self.notify[n as usize].flag,
+            Op::NWaitUntil { n, .. } if self.th[t].sub == WU_WAIT => self.notify[n as usize].flag,
+            Op::CvWaitUntil { c, m, .. } if self.th[t].sub == WU_WAIT => {
+                let woken = self.th[t].cv_notified.is_some()
+                    || self.cv[c as usize].permits.iter().any(|(el, _)| el.contains(&tid));
+                woken && self.mutex[m as usize].owner.is_none()
+            }
             Op::BlockOn { .. } | Op::BlockOn2 { .. } if self.th[t].sub == BO_WAIT => self.bo[t].flag,
             Op::CvWait { c, m } if self.th[t].sub == 1 => {
                 let woken = self.th[t].cv_notified.is_some()
@@ -527,11 +562,40 @@ impl<'p> Machine<'p> {
     pub fn in_compound_first_phase(&self, t: usize) -> bool {
         match self.cur_op(t).and_then(|o| self.effective(t, o)) {
             Some(Op::CvWait { m, .. }) => self.th[t].sub == 0 && self.mutex[*m as usize].owner == Some(t as u8),
+            // the wait inside a predicate loop (enqueue + unlock, wake-up + re-lock) leaves no
+            // event of its own
+            Some(Op::CvWaitUntil { .. }) | Some(Op::NWaitUntil { .. }) => self.th[t].sub != WU_CHECK,
             // registration and wake-up inside block_on leave no event of their own
             Some(Op::AwWake) | Some(Op::SlotWake { .. }) => self.guided && self.th[t].sub == 0,
             Some(Op::BlockOn2 { .. }) => self.th[t].sub == BO_WAIT,
             Some(Op::BlockOn { reg_first, .. }) => matches!(self.th[t].sub, BO_REG_FIRST | BO_REG_AFTER | BO_WAIT) || (self.th[t].sub == 0 && *reg_first),
             _ => false,
+        }
+    }
+
+    pub fn is_wait_until(&self, t: usize) -> bool {
+        matches!(self.cur_op(t).and_then(|o| self.effective(t, o)), Some(Op::CvWaitUntil { .. }) | Some(Op::NWaitUntil { .. }))
+    }
+
+    pub fn wait_until_at_check(&self, t: usize) -> bool {
+        self.th[t].sub == WU_CHECK
+    }
+
+    pub fn wait_until_must_enqueue(&self, t: usize) -> bool {
+        self.th[t].sub == WU_ENQ
+    }
+
+    pub fn wait_until_value(&self, t: usize) -> Option<u64> {
+        match self.cur_op(t).and_then(|o| self.effective(t, o)) {
+            Some(Op::CvWaitUntil { m, v, .. }) => {
+                if self.mutex[*m as usize].owner == Some(t as u8) {
+                    Some(*v)
+                } else {
+                    None
+                }
+            }
+            Some(Op::NWaitUntil { v, .. }) => Some(*v),
+            _ => None,
         }
     }
 
@@ -698,6 +762,107 @@ impl<'p> Machine<'p> {
 
     // ------------------------------------------------------------------ stepping
 
+    /// One phase of `Condvar::wait` (0: enqueue + unlock, 1: wake-up + re-lock).
+    fn cv_wait_phase(&mut self, t: usize, pc: usize, c: u8, m: u8, phase: u8, ch: &mut dyn Choose) -> CvPhase {
+        let tid = t as u8;
+                if phase == 0 {
+                    if self.mutex[m as usize].owner != Some(tid) {
+                        // not holding the mutex: the op is a no-op
+                        return CvPhase::NoOp;
+                    } else {
+                        let e = self.push_ev(t, pc, EK::Sync, NOLOC, MO::Rlx);
+                        self.cv[c as usize].waiters.push(tid);
+                        let st = &mut self.mutex[m as usize];
+                        st.owner = None;
+                        st.last_unlock = Some(e);
+                        self.th[t].cv_notified = None;
+                        self.th[t].cv_spurious_ok = None;
+                        return CvPhase::Enqueued;
+                    }
+                } else {
+                    let e = self.push_ev(t, pc, EK::Sync, NOLOC, MO::Rlx);
+                    // why are we awake?
+                    let mut srcs: Vec<Option<usize>> = Vec::new(); // alternatives
+                    if let Some(n) = self.th[t].cv_notified {
+                        srcs.push(Some(n));
+                    }
+                    let permit_idx: Vec<usize> = self.cv[c as usize]
+                        .permits
+                        .iter()
+                        .enumerate()
+                        .filter(|(_, (el, _))| el.contains(&tid))
+                        .map(|(i, _)| i)
+                        .collect();
+                    let n_direct = srcs.len();
+                    for _ in &permit_idx {
+                        srcs.push(None);
+                    }
+                    let spur = self.th[t].cv_spurious_ok;
+                    if spur.is_some() {
+                        srcs.push(None);
+                    }
+                    assert!(!srcs.is_empty());
+                    let k = ch.choose(srcs.len());
+                    if k < n_direct {
+                        self.g.extra.push((self.th[t].cv_notified.unwrap(), e));
+                    } else if k < n_direct + permit_idx.len() {
+                        let pi = permit_idx[k - n_direct];
+                        let (_, n) = self.cv[c as usize].permits.remove(pi);
+                        self.g.extra.push((n, e));
+                        self.cv[c as usize].waiters.retain(|&x| x != tid);
+                    } else {
+                        // spurious (stray unpark): leaves the waiter list
+                        self.g.extra.push((spur.unwrap(), e));
+                        self.cv[c as usize].waiters.retain(|&x| x != tid);
+                        // the stray unpark's token was consumed by the wake-up
+                        self.th[t].park_token = false;
+                        self.th[t].token_src = None;
+                    }
+                    self.th[t].cv_notified = None;
+                    self.th[t].cv_spurious_ok = None;
+                    // permits of earlier notify_one calls are void for this thread's later waits
+                    for (el, _) in self.cv[c as usize].permits.iter_mut() {
+                        el.retain(|&x| x != tid);
+                    }
+                    self.cv[c as usize].permits.retain(|(el, _)| !el.is_empty());
+                    let st = &mut self.mutex[m as usize];
+                    assert!(st.owner.is_none());
+                    st.owner = Some(tid);
+                    self.poison_hit |= st.poisoned;
+                    if let Some(u) = st.last_unlock {
+                        self.g.extra.push((u, e));
+                    }
+                    self.probe_blocked_then_woken += 1;
+                    return CvPhase::Woken;
+                }
+        #[allow(unreachable_code)]
+        CvPhase::NoOp
+    }
+
+    fn nwait_step(&mut self, t: usize, pc: usize, n: u8, ch: &mut dyn Choose) {
+                let e = self.push_ev(t, pc, EK::Sync, NOLOC, MO::Rlx);
+                let may = self.cfg.reading == Reading::May;
+                let st = &mut self.notify[n as usize];
+                // alternatives: consume the flag / return spuriously
+                let can_consume = st.flag;
+                let can_spur = may && !st.spurious_used;
+                let spur = if can_consume && can_spur {
+                    ch.choose(2) == 1
+                } else {
+                    !can_consume
+                };
+                if spur {
+                    assert!(can_spur);
+                    st.spurious_used = true;
+                } else {
+                    st.flag = false;
+                    for s in std::mem::take(&mut st.src) {
+                        self.g.extra.push((s, e));
+                    }
+                    self.probe_blocked_then_woken += 1;
+                }
+    }
+
     /// Execute the next (sub-)step of thread `t`. Precondition: `enabled(t)`.
     /// `exp` is the result loom returned for this op (guided replay) - the machine must be able
     /// to produce it. Returns Ok(true) if the op completed (pc advanced).
@@ -845,10 +1010,10 @@ impl<'p> Machine<'p> {
                     // [envelope] MAY: a thread waiting on a condvar may be woken by a stray unpark
                     // (std permits spurious condvar wake-ups)
                     if self.cfg.reading == Reading::May {
-                        if let Some(Op::CvWait { .. }) = self.cur_op(c).and_then(|o| self.effective(c, o)) {
-                            if self.th[c].sub == 1 {
-                                self.th[c].cv_spurious_ok = Some(e);
-                            }
+                        match self.cur_op(c).and_then(|o| self.effective(c, o)) {
+                            Some(Op::CvWait { .. }) if self.th[c].sub == 1 => self.th[c].cv_spurious_ok = Some(e),
+                            Some(Op::CvWaitUntil { .. }) if self.th[c].sub == WU_WAIT => self.th[c].cv_spurious_ok = Some(e),
+                            _ => {}
                         }
                     }
                 }
@@ -963,77 +1128,59 @@ impl<'p> Machine<'p> {
                 }
             }
             Op::CvWait { c, m } => {
-                if self.th[t].sub == 0 {
+                let phase = self.th[t].sub;
+                match self.cv_wait_phase(t, pc, c, m, phase, ch) {
+                    CvPhase::NoOp => {}
+                    CvPhase::Enqueued => {
+                        self.th[t].sub = 1;
+                        completed = false;
+                    }
+                    CvPhase::Woken => self.th[t].sub = 0,
+                }
+            }
+            Op::CvWaitUntil { c, m, a, o, v } => match self.th[t].sub {
+                WU_CHECK => {
                     if self.mutex[m as usize].owner != Some(tid) {
                         // not holding the mutex: the op is a no-op
                     } else {
-                        let e = self.push_ev(t, pc, EK::Sync, NOLOC, MO::Rlx);
-                        self.cv[c as usize].waiters.push(tid);
-                        let st = &mut self.mutex[m as usize];
-                        st.owner = None;
-                        st.last_unlock = Some(e);
-                        self.th[t].sub = 1;
-                        self.th[t].cv_notified = None;
-                        self.th[t].cv_spurious_ok = None;
+                        let w = self.pick_read(t, a, o, false, exp, ch)?;
+                        self.do_read(t, pc, a, o, w, false);
+                        if self.g.evs[w].wval != v {
+                            self.th[t].sub = WU_ENQ;
+                            completed = false;
+                        }
+                    }
+                }
+                WU_ENQ => {
+                    match self.cv_wait_phase(t, pc, c, m, 0, ch) {
+                        CvPhase::Enqueued => self.th[t].sub = WU_WAIT,
+                        _ => unreachable!(),
+                    }
+                    completed = false;
+                }
+                _ => {
+                    match self.cv_wait_phase(t, pc, c, m, 1, ch) {
+                        CvPhase::Woken => self.th[t].sub = WU_CHECK,
+                        _ => unreachable!(),
+                    }
+                    completed = false;
+                }
+            },
+            Op::NWaitUntil { n, a, o, v } => match self.th[t].sub {
+                WU_CHECK => {
+                    let w = self.pick_read(t, a, o, false, exp, ch)?;
+                    self.do_read(t, pc, a, o, w, false);
+                    if self.g.evs[w].wval != v {
+                        self.th[t].sub = WU_WAIT;
                         completed = false;
                     }
-                } else {
-                    let e = self.push_ev(t, pc, EK::Sync, NOLOC, MO::Rlx);
-                    // why are we awake?
-                    let mut srcs: Vec<Option<usize>> = Vec::new(); // alternatives
-                    if let Some(n) = self.th[t].cv_notified {
-                        srcs.push(Some(n));
-                    }
-                    let permit_idx: Vec<usize> = self.cv[c as usize]
-                        .permits
-                        .iter()
-                        .enumerate()
-                        .filter(|(_, (el, _))| el.contains(&tid))
-                        .map(|(i, _)| i)
-                        .collect();
-                    let n_direct = srcs.len();
-                    for _ in &permit_idx {
-                        srcs.push(None);
-                    }
-                    let spur = self.th[t].cv_spurious_ok;
-                    if spur.is_some() {
-                        srcs.push(None);
-                    }
-                    assert!(!srcs.is_empty());
-                    let k = ch.choose(srcs.len());
-                    if k < n_direct {
-                        self.g.extra.push((self.th[t].cv_notified.unwrap(), e));
-                    } else if k < n_direct + permit_idx.len() {
-                        let pi = permit_idx[k - n_direct];
-                        let (_, n) = self.cv[c as usize].permits.remove(pi);
-                        self.g.extra.push((n, e));
-                        self.cv[c as usize].waiters.retain(|&x| x != tid);
-                    } else {
-                        // spurious (stray unpark): leaves the waiter list
-                        self.g.extra.push((spur.unwrap(), e));
-                        self.cv[c as usize].waiters.retain(|&x| x != tid);
-                        // the stray unpark's token was consumed by the wake-up
-                        self.th[t].park_token = false;
-                        self.th[t].token_src = None;
-                    }
-                    self.th[t].cv_notified = None;
-                    self.th[t].cv_spurious_ok = None;
-                    // permits of earlier notify_one calls are void for this thread's later waits
-                    for (el, _) in self.cv[c as usize].permits.iter_mut() {
-                        el.retain(|&x| x != tid);
-                    }
-                    self.cv[c as usize].permits.retain(|(el, _)| !el.is_empty());
-                    let st = &mut self.mutex[m as usize];
-                    assert!(st.owner.is_none());
-                    st.owner = Some(tid);
-                    self.poison_hit |= st.poisoned;
-                    if let Some(u) = st.last_unlock {
-                        self.g.extra.push((u, e));
-                    }
-                    self.th[t].sub = 0;
-                    self.probe_blocked_then_woken += 1;
                 }
-            }
+                _ => {
+                    self.nwait_step(t, pc, n, ch);
+                    self.th[t].sub = WU_CHECK;
+                    completed = false;
+                }
+            },
             Op::CvOne { c } => {
                 let e = self.push_ev(t, pc, EK::Sync, NOLOC, MO::Rlx);
                 let st = &mut self.cv[c as usize];
@@ -1066,29 +1213,7 @@ impl<'p> Machine<'p> {
                 }
                 // outstanding notify_one permits stay valid for their eligible sets
             }
-            Op::NWait { n } => {
-                let e = self.push_ev(t, pc, EK::Sync, NOLOC, MO::Rlx);
-                let may = self.cfg.reading == Reading::May;
-                let st = &mut self.notify[n as usize];
-                // alternatives: consume the flag / return spuriously
-                let can_consume = st.flag;
-                let can_spur = may && !st.spurious_used;
-                let spur = if can_consume && can_spur {
-                    ch.choose(2) == 1
-                } else {
-                    !can_consume
-                };
-                if spur {
-                    assert!(can_spur);
-                    st.spurious_used = true;
-                } else {
-                    st.flag = false;
-                    for s in std::mem::take(&mut st.src) {
-                        self.g.extra.push((s, e));
-                    }
-                    self.probe_blocked_then_woken += 1;
-                }
-            }
+            Op::NWait { n } => self.nwait_step(t, pc, n, ch),
             Op::NNotify { n } => {
                 let e = self.push_ev(t, pc, EK::Sync, NOLOC, MO::Rlx);
                 let st = &mut self.notify[n as usize];
